@@ -5,9 +5,7 @@ use crate::engine::*;
 use crate::gen::*;
 use crate::nat::{n, Nat};
 use cosmwasm_std::{Decimal, Uint128};
-use halo_pair::assert::{assert_max_spread, assert_slippage_tolerance};
 use haloswap::asset::{Asset, AssetInfo};
-use haloswap::error::ContractError;
 use serde_json::{json, Value};
 
 // ------------------------------------------------------------------------------------------------
@@ -38,20 +36,20 @@ fn native(d: &str) -> AssetInfo {
 
 pub fn call_max_spread(k: &SpreadCase) -> GuardOutcome {
     let r = guarded(|| {
-        assert_max_spread(
+        crate::direct::max_spread(
             k.belief.map(|a| Decimal::new(Uint128::new(a))),
             k.max_spread.map(|a| Decimal::new(Uint128::new(a))),
             Asset { info: native("offer"), amount: Uint128::new(k.offer) },
             Asset { info: native("ask"), amount: Uint128::new(k.ret) },
-            Uint128::new(k.spread),
+            k.spread,
             k.od,
             k.rd,
         )
     });
     match r {
         Ok(Ok(())) => GuardOutcome::Ok,
-        Ok(Err(ContractError::MaxSpreadAssertion {})) => GuardOutcome::GuardReject,
-        Ok(Err(e)) => GuardOutcome::OtherReject(e.to_string()),
+        Ok(Err((true, _))) => GuardOutcome::GuardReject,
+        Ok(Err((false, e))) => GuardOutcome::OtherReject(e),
         Err(p) => GuardOutcome::OtherReject(format!("abort: {p}")),
     }
 }
@@ -313,16 +311,16 @@ pub struct SlipCase {
 
 pub fn call_slippage(k: &SlipCase) -> GuardOutcome {
     let r = guarded(|| {
-        assert_slippage_tolerance(
+        crate::direct::slippage(
             &k.tol.map(|a| Decimal::new(Uint128::new(a))),
-            &[Uint128::new(k.d[0]), Uint128::new(k.d[1])],
+            &k.d,
             &[Asset { info: native("a"), amount: Uint128::new(k.r[0]) }, Asset { info: native("b"), amount: Uint128::new(k.r[1]) }],
         )
     });
     match r {
         Ok(Ok(())) => GuardOutcome::Ok,
-        Ok(Err(ContractError::MaxSlippageAssertion {})) => GuardOutcome::GuardReject,
-        Ok(Err(e)) => GuardOutcome::OtherReject(e.to_string()),
+        Ok(Err((true, _))) => GuardOutcome::GuardReject,
+        Ok(Err((false, e))) => GuardOutcome::OtherReject(e),
         Err(p) => GuardOutcome::OtherReject(format!("abort: {p}")),
     }
 }
